@@ -1,5 +1,5 @@
 (* MV.C20.GeomProofs — the Q models of the geometric primitives satisfy their geometric definitions. *)
-From Coq Require Import QArith Qabs Qminmax Lqa List Bool.
+From Coq Require Import QArith Qabs Qminmax Lqa Lia List Bool.
 From MV Require Import C20.GeomModel.
 Import ListNotations.
 Open Scope Q_scope.
@@ -394,4 +394,194 @@ Proof.
   destruct a as [ax ay], b as [bx by_], c as [cx cy].
   unfold polygon_centroid, area2, edges, edges_from, shoelace_term, vadd, vmul, vdiv, pt_eq. cbn [fold_left]. qsimp.
   intros Ha. split; field; intros H; apply Ha; lra.
+Qed.
+
+(* ------------------------------------------------------------------ overlap of collinear segments *)
+(* the order in which CalcLineSegmentOverlap sorts points: by x, then by y *)
+Definition plt (a b : pt) : Prop := px a < px b \/ (px a == px b /\ py a < py b).
+Definition ple (a b : pt) : Prop := plt a b \/ pt_eq a b.
+Lemma plt_total : forall x y, plt x y \/ pt_eq x y \/ plt y x.
+Proof. intros [x y] [x' y']. unfold plt, pt_eq; qsimp. lra. Qed.
+
+Lemma lex_lt_true a b : lex_lt a b = true <-> plt a b.
+Proof.
+  unfold lex_lt, plt. rewrite orb_true_iff, andb_true_iff, !Qltb_lt, Qeq_bool_iff. reflexivity.
+Qed.
+Lemma lex_lt_false a b : lex_lt a b = false <-> ple b a.
+Proof.
+  split.
+  - intros H. destruct (lex_lt b a) eqn:E.
+    + left. apply lex_lt_true. exact E.
+    + right. revert H E. unfold lex_lt, pt_eq, pt_eq.
+      rewrite !orb_false_iff, !andb_false_iff. intros [H1 H2] [H3 H4].
+      apply Qltb_ge in H1. apply Qltb_ge in H3.
+      assert (Hx : px b == px a) by lra. split; [exact Hx|].
+      destruct H2 as [H2|H2]; [apply Qeq_bool_false in H2; exfalso; apply H2; lra|].
+      destruct H4 as [H4|H4]; [apply Qeq_bool_false in H4; exfalso; apply H4; lra|].
+      apply Qltb_ge in H2. apply Qltb_ge in H4. lra.
+  - intros H. destruct (lex_lt a b) eqn:E; [|reflexivity]. apply lex_lt_true in E. exfalso.
+    unfold ple, plt, pt_eq in *. lra.
+Qed.
+Lemma pt_eqb_true a b : pt_eqb a b = true <-> pt_eq a b.
+Proof. unfold pt_eqb, pt_eq, pt_eq. rewrite andb_true_iff, !Qeq_bool_iff. reflexivity. Qed.
+Lemma pt_eqb_false a b : pt_eqb a b = false <-> ~ pt_eq a b.
+Proof.
+  split.
+  - intros H He. apply pt_eqb_true in He. congruence.
+  - intros H. destruct (pt_eqb a b) eqn:E; [|reflexivity]. apply pt_eqb_true in E. contradiction.
+Qed.
+
+Definition lex_min (a b : pt) : pt := if lex_lt b a then b else a.
+Definition lex_max (a b : pt) : pt := if lex_lt a b then b else a.
+
+(* brute-force definition: the common part of the two segments in the sorting order, when it is more than a point *)
+Definition overlap_spec (l1 l2 : seg) : option seg :=
+  let lo := lex_max (lex_min (fst l1) (snd l1)) (lex_min (fst l2) (snd l2)) in
+  let hi := lex_min (lex_max (fst l1) (snd l1)) (lex_max (fst l2) (snd l2)) in
+  if lex_lt lo hi then Some (lo, hi) else None.
+
+Definition seg_opt_eq (a b : option seg) : Prop :=
+  match a, b with
+  | None, None => True
+  | Some (a1, a2), Some (b1, b2) => pt_eq a1 b1 /\ pt_eq a2 b2
+  | _, _ => False
+  end.
+
+(* ---- ranks: the number of end points strictly before a point; turns order reasoning into linear integer arithmetic *)
+Section Rank.
+  Variables a1 b1 a2 b2 : pt.
+  Definition b2z (b : bool) : Z := if b then 1%Z else 0%Z.
+  Definition rk (x : pt) : Z := (b2z (lex_lt a1 x) + b2z (lex_lt b1 x) + b2z (lex_lt a2 x) + b2z (lex_lt b2 x))%Z.
+  Definition four (x : pt) : Prop := x = a1 \/ x = b1 \/ x = a2 \/ x = b2.
+
+  Lemma b2z_mono p x y : ple x y -> (b2z (lex_lt p x) <= b2z (lex_lt p y))%Z.
+  Proof.
+    intros H. destruct (lex_lt p x) eqn:E1; destruct (lex_lt p y) eqn:E2; cbn; try lia.
+    apply lex_lt_true in E1. apply lex_lt_false in E2. exfalso.
+    unfold ple, plt, pt_eq in *. lra.
+  Qed.
+  Lemma rk_le x y : ple x y -> (rk x <= rk y)%Z.
+  Proof.
+    intros H. unfold rk.
+    pose proof (b2z_mono a1 x y H). pose proof (b2z_mono b1 x y H).
+    pose proof (b2z_mono a2 x y H). pose proof (b2z_mono b2 x y H). lia.
+  Qed.
+  Lemma b2z_strict x y : plt x y -> (b2z (lex_lt x x) < b2z (lex_lt x y))%Z.
+  Proof.
+    intros H. destruct (lex_lt x x) eqn:E1; [apply lex_lt_true in E1; exfalso; unfold plt in *; lra|].
+    destruct (lex_lt x y) eqn:E2; [cbn; lia|]. apply lex_lt_false in E2. exfalso.
+    unfold ple, plt, pt_eq in *. lra.
+  Qed.
+  Lemma rk_lt x y : four x -> plt x y -> (rk x < rk y)%Z.
+  Proof.
+    intros Hx H. assert (Hle : ple x y) by (left; exact H). unfold rk.
+    pose proof (b2z_mono a1 x y Hle). pose proof (b2z_mono b1 x y Hle).
+    pose proof (b2z_mono a2 x y Hle). pose proof (b2z_mono b2 x y Hle).
+    pose proof (b2z_strict x y H) as Hs.
+    destruct Hx as [->|[->|[->| ->]]]; lia.
+  Qed.
+  Lemma rk_eq x y : four x -> four y -> rk x = rk y -> pt_eq x y.
+  Proof.
+    intros Hx Hy H. destruct (plt_total x y) as [Hl|[He|Hg]]; [|exact He|].
+    - pose proof (rk_lt x y Hx Hl). lia.
+    - pose proof (rk_lt y x Hy Hg). lia.
+  Qed.
+  Lemma rk_of_lex_true x y : four x -> lex_lt x y = true -> (rk x < rk y)%Z.
+  Proof. intros Hx H. apply rk_lt; [exact Hx|apply lex_lt_true; exact H]. Qed.
+  Lemma rk_of_lex_false x y : lex_lt x y = false -> (rk y <= rk x)%Z.
+  Proof. intros H. apply rk_le. apply lex_lt_false. exact H. Qed.
+  Lemma rk_of_eqb_true x y : pt_eqb x y = true -> rk x = rk y.
+  Proof.
+    intros H. apply pt_eqb_true in H.
+    assert (H1 : ple x y) by (right; exact H).
+    assert (H2 : ple y x) by (right; destruct H; split; symmetry; assumption).
+    pose proof (rk_le x y H1). pose proof (rk_le y x H2). lia.
+  Qed.
+  Lemma rk_of_eqb_false x y : four x -> four y -> pt_eqb x y = false -> rk x <> rk y.
+  Proof.
+    intros Hx Hy H He. apply pt_eqb_false in H. apply H. apply rk_eq; assumption.
+  Qed.
+End Rank.
+
+Ltac four_solve := unfold four;
+  first [left; reflexivity | right; left; reflexivity | right; right; left; reflexivity | right; right; right; reflexivity].
+
+Ltac lex_step a1 b1 a2 b2 :=
+  match goal with
+  | |- context [lex_lt ?a ?b] => is_var a; is_var b;
+      let E := fresh "E" in destruct (lex_lt a b) eqn:E;
+      [ pose proof (rk_of_lex_true a1 b1 a2 b2 a b ltac:(four_solve) E)
+      | pose proof (rk_of_lex_false a1 b1 a2 b2 a b E) ]; clear E; try (exfalso; lia)
+  | |- context [pt_eqb ?a ?b] => is_var a; is_var b;
+      let E := fresh "E" in destruct (pt_eqb a b) eqn:E;
+      [ pose proof (rk_of_eqb_true a1 b1 a2 b2 a b E)
+      | pose proof (rk_of_eqb_false a1 b1 a2 b2 a b ltac:(four_solve) ltac:(four_solve) E) ]; clear E; try (exfalso; lia)
+  end; cbn [fold_left ins_sorted fst snd eqb orb seg_opt_eq].
+
+Lemma overlap_matches_spec l1 l2 : seg_opt_eq (overlap l1 l2) (overlap_spec l1 l2).
+Proof.
+  destruct l1 as [a1 b1], l2 as [a2 b2].
+  unfold overlap, overlap_with, overlap_spec, sort4, lex_min, lex_max. cbn [fold_left ins_sorted fst snd].
+  repeat (lex_step a1 b1 a2 b2);
+    try exact I; try (exfalso; lia);
+    try (split; (apply (rk_eq a1 b1 a2 b2); [four_solve|four_solve|lia])).
+Qed.
+
+(* what the brute-force definition means: [lo,hi] is the intersection of the two intervals of the sorting order *)
+Definition lex_between (s : seg) (x : pt) : Prop :=
+  ple (lex_min (fst s) (snd s)) x /\ ple x (lex_max (fst s) (snd s)).
+
+Ltac coords :=
+  unfold ple, plt, pt_eq in *;
+  repeat match goal with p : pt |- _ => destruct p end; qsimp.
+
+Lemma ple_trans a b c : ple a b -> ple b c -> ple a c.
+Proof. coords. lra. Qed.
+Lemma ple_antisym a b : ple a b -> ple b a -> pt_eq a b.
+Proof. coords. lra. Qed.
+Lemma ple_refl a : ple a a.
+Proof. coords. lra. Qed.
+
+Lemma lex_max_le p q x : ple (lex_max p q) x <-> ple p x /\ ple q x.
+Proof.
+  unfold lex_max. destruct (lex_lt p q) eqn:E.
+  - apply lex_lt_true in E. split; [intros H; split; [|exact H]|intros [_ H]; exact H].
+    eapply ple_trans; [left; exact E|exact H].
+  - apply lex_lt_false in E. split; [intros H; split; [exact H|]|intros [H _]; exact H].
+    eapply ple_trans; [exact E|exact H].
+Qed.
+Lemma lex_min_ge p q x : ple x (lex_min p q) <-> ple x p /\ ple x q.
+Proof.
+  unfold lex_min. destruct (lex_lt q p) eqn:E.
+  - apply lex_lt_true in E. split; [intros H; split; [|exact H]|intros [_ H]; exact H].
+    eapply ple_trans; [exact H|left; exact E].
+  - apply lex_lt_false in E. split; [intros H; split; [exact H|]|intros [H _]; exact H].
+    eapply ple_trans; [exact H|exact E].
+Qed.
+
+Lemma lex_between_both l1 l2 x :
+  (lex_between l1 x /\ lex_between l2 x) <->
+  (ple (lex_max (lex_min (fst l1) (snd l1)) (lex_min (fst l2) (snd l2))) x /\
+   ple x (lex_min (lex_max (fst l1) (snd l1)) (lex_max (fst l2) (snd l2)))).
+Proof. unfold lex_between. rewrite lex_max_le, lex_min_ge. tauto. Qed.
+
+Lemma overlap_spec_some l1 l2 u v : overlap_spec l1 l2 = Some (u, v) ->
+  plt u v /\ forall x, (lex_between l1 x /\ lex_between l2 x) <-> (ple u x /\ ple x v).
+Proof.
+  unfold overlap_spec. cbn zeta.
+  destruct (lex_lt _ _) eqn:E; [|discriminate]. intros H. inversion H; subst u v; clear H.
+  split; [apply lex_lt_true; exact E|]. intros x. apply lex_between_both.
+Qed.
+
+Lemma overlap_spec_none l1 l2 : overlap_spec l1 l2 = None ->
+  forall x y, lex_between l1 x -> lex_between l2 x -> lex_between l1 y -> lex_between l2 y -> pt_eq x y.
+Proof.
+  unfold overlap_spec. cbn zeta.
+  destruct (lex_lt _ _) eqn:E; [discriminate|]. intros _ x y Hx1 Hx2 Hy1 Hy2.
+  apply lex_lt_false in E.
+  destruct (proj1 (lex_between_both l1 l2 x) (conj Hx1 Hx2)) as [Hxl Hxh].
+  destruct (proj1 (lex_between_both l1 l2 y) (conj Hy1 Hy2)) as [Hyl Hyh].
+  apply ple_antisym.
+  - eapply ple_trans; [exact Hxh|]. eapply ple_trans; [exact E|exact Hyl].
+  - eapply ple_trans; [exact Hyh|]. eapply ple_trans; [exact E|exact Hxl].
 Qed.
